@@ -982,6 +982,8 @@ class Frame:
                     o.items[idx] = v
                     self.ctx.writes.append((base.oid, "[]"))
                     return
+            if isinstance(base, (dict, list)):
+                raise Undecided("write to module / class-level state: the frame (modifies clause) cannot be established")
             raise Undecided("subscript store")
         else:
             raise Undecided("assignment target")
@@ -1540,6 +1542,9 @@ def binop(ctx, op, a, b):
     if isinstance(a, (Rope, bytes)) and isinstance(op, ast.Mult):
         if isinstance(b, int):
             return simplify_native(as_rope(a) * b)
+        if is_sym(b) and z3.is_int(b) and len(as_rope(a)) == 1 and as_rope(a).is_concrete():
+            from .seqs import ZSeq, rep
+            return ZSeq(rep(as_rope(a).native()[0], b), "bytes")
         raise Undecided("bytes repeated a symbolic number of times")
     # strings
     if isinstance(a, (str, SStr)) and isinstance(b, (str, SStr)) and isinstance(op, ast.Add):
@@ -1547,6 +1552,9 @@ def binop(ctx, op, a, b):
     if isinstance(a, (str, SStr)) and isinstance(op, ast.Mult):
         if isinstance(a, str) and isinstance(b, int):
             return a * b
+        if isinstance(a, str) and len(a) == 1 and is_sym(b) and z3.is_int(b):
+            from .seqs import ZSeq, rep
+            return ZSeq(rep(ord(a), b), "str")
         raise Undecided("string repeated a symbolic number of times")
     # lists / tuples
     if isinstance(op, ast.Add) and (isinstance(a, Ref) or isinstance(b, Ref)):
@@ -1783,6 +1791,17 @@ def subscript(ctx, base, idx):
             r = h(ctx, base, idx)
             if r is not None:
                 return r
+        if isinstance(base, str) and len(set(base)) == len(base) and len(base) > 1:
+            from .seqs import Table, ZChar
+            n = len(base)
+            if not ctx.branch(land(idx >= 0, idx < n)):
+                if ctx.branch(land(idx >= -n, idx < 0)):
+                    idx = idx + n
+                else:
+                    raise PyRaise(IndexError)
+            tab = Table.of(base)
+            _table_ground(ctx, tab)
+            return ZChar(tab.CH(idx))
         if isinstance(base, (list, tuple)) and all(isinstance(x, int) for x in base) and len(base) <= 64:
             # small integer table: if-chain, IndexError outside
             n = len(base)
@@ -1798,6 +1817,14 @@ def subscript(ctx, base, idx):
         return base[idx]
     except BaseException as ex:
         raise PyRaise(type(ex), str(ex))
+
+
+def _table_ground(ctx, tab):
+    key = ("tab", id(tab))
+    if key not in ctx.sink.split_cache:
+        ctx.sink.split_cache[key] = True
+        for f in tab.ground:
+            ctx.sink.add(f)
 
 
 def sstr_subscript(ctx, s, idx):
